@@ -127,12 +127,69 @@ def scenario(draw, profile):
     nprocs = draw(st.integers(lo, hi))
     pnames = ["p%d" % i for i in range(nprocs)]
 
-    def gen_op(in_process):
+    # A static approximation of the run-time state keeps most generated ops enabled when reached
+    # (the interpreter still re-checks every precondition and skips what does not hold).
+    glob = dict(nuev=0, nkput=0)
+
+    def gen_op(in_process, me=None, ps=None):
         k = draw(st.sampled_from(kinds))
         if not in_process and k not in DISPATCHER_OK:
             k = draw(st.sampled_from(["interrupt", "stop", "setprio", "interrupt"]))
+        if ps is not None:
+            # steer away from ops that would certainly be skipped
+            if k in ("acquire", "preempt") and len(ps["held"]) == len(env["res"]):
+                k = "release"
+            if k == "release" and not ps["held"]:
+                k = "acquire" if env["res"] else "hold"
+            if k == "prel" and not any(ps["pool"].values()):
+                k = "pacq"
+            if k == "timer_cancel" and ps["ntimers"] == 0:
+                k = "timer_add"
+            if k == "wait_proc" and nprocs < 2:
+                k = "hold"
+        if k in ("wait_ev", "ucancel", "uresched") and glob["nuev"] == 0:
+            k = "usched"
+        if k in ("kcancel", "kreprio", "kpos") and glob["nkput"] == 0:
+            k = "kput"
         pick = lambda kind: draw(st.sampled_from(env[kind]))
-        tgt = lambda: draw(st.sampled_from(pnames))
+
+        def tgt(other=False):
+            names = [n for n in pnames if not (other and n == me)] or pnames
+            # interrupts and stops aimed at oneself are always enabled; mix them in
+            if not other and me is not None and draw(st.integers(0, 3)) == 0:
+                return me
+            return draw(st.sampled_from(names))
+        if ps is not None:
+            if k in ("acquire", "preempt"):
+                r = draw(st.sampled_from([x for x in env["res"] if x not in ps["held"]]))
+                ps["held"].add(r)
+                return "%s %s" % (k, r)
+            if k == "release":
+                r = draw(st.sampled_from(sorted(ps["held"])))
+                ps["held"].discard(r)
+                return "release %s" % r
+            if k in ("pacq", "ppre"):
+                p = pick("pool")
+                room = caps[p] - ps["pool"].get(p, 0)
+                if room >= 1:
+                    n = draw(st.integers(1, min(room, 5)))
+                    ps["pool"][p] = ps["pool"].get(p, 0) + n
+                    return "%s %s %d" % (k, p, n)
+                k = "prel"
+            if k == "prel":
+                cands = [x for x in env["pool"] if ps["pool"].get(x, 0) > 0]
+                if cands:
+                    p = draw(st.sampled_from(cands))
+                    n = draw(st.integers(1, ps["pool"][p]))
+                    ps["pool"][p] -= n
+                    return "prel %s %d" % (p, n)
+                return "hold %s" % fhex(draw(st.sampled_from(DUR)))
+            if k in ("timer_add", "timer_set"):
+                ps["ntimers"] += 1
+        if k == "usched":
+            glob["nuev"] += 1
+        if k == "kput":
+            glob["nkput"] += 1
         if k == "hold":
             return "hold %s" % fhex(draw(st.sampled_from(DUR)))
         if k == "yield_":
@@ -186,7 +243,7 @@ def scenario(draw, profile):
         if k == "ctrset":
             return "ctrset %d %d" % (draw(st.integers(0, 1)), draw(st.integers(0, 3)))
         if k == "wait_proc":
-            return "wait_proc %s" % tgt()
+            return "wait_proc %s" % tgt(other=True)
         if k in ("wait_ev", "ucancel", "timer_cancel"):
             return "%s %d" % (k, draw(st.integers(0, 3)))
         if k == "uresched":
@@ -221,8 +278,12 @@ def scenario(draw, profile):
         lines.append("proc p%d prio %s start %s sprio %s" % (
             i, draw(PRIOS), start if start == "never" else fhex(start), draw(st.sampled_from([0, 0, 1, -1]))))
         nops = draw(st.integers(1, maxops))
+        ps = dict(held=set(), pool={}, ntimers=0)
         for _ in range(nops):
-            lines.append("op " + gen_op(True))
+            lines.append("op " + gen_op(True, "p%d" % i, ps))
+        if draw(st.integers(0, 2)) == 0:
+            # stay alive for a while so that interrupts / stops from others find a running target
+            lines.append("op hold %s" % fhex(draw(st.sampled_from([1.0, 2.0, 3.0]))))
     ncmds = draw(st.integers(0, 4))
     for _ in range(ncmds):
         lines.append("at %s %s %s" % (fhex(draw(st.sampled_from(TIMES))), draw(PRIOS), gen_op(False)))
